@@ -6,11 +6,14 @@
 package c10bytex
 
 import (
+	"bufio"
 	"bytes"
 	"encoding/binary"
 	"fmt"
 	"io"
 	"math"
+	"strings"
+	"testing/iotest"
 	"unicode/utf8"
 
 	"github.com/pinealctx/neptune/bytex"
@@ -33,14 +36,73 @@ const maxAlloc = 1 << 20
 //	K: bool u8 u16 i16 u32 i32 u64 i64 vu32 vi32 vu64 vi64 f64 (value = raw bits in U)
 //	   str (B), lstr (B, write limit L, read limit RL), bytes (B, read back with Via)
 //	   read-only kinds of the robustness / differential scripts: read readn zreadn (N)
+//
+// A large body (64 KiB and more) is not spelled out in the case: GN > 0 with an
+// empty B stands for the GN bytes of pattern(GN, GS); expandOp materialises it.
 type Op struct {
 	K   string `json:"k"`
 	U   uint64 `json:"u,omitempty"`
 	B   []byte `json:"b,omitempty"`
+	GN  int64  `json:"gn,omitempty"`
+	GS  uint8  `json:"gs,omitempty"`
 	L   uint32 `json:"l,omitempty"`
 	RL  uint32 `json:"rl,omitempty"`
 	N   int64  `json:"n,omitempty"`
 	Via string `json:"via,omitempty"` // for K=bytes: read | readn | zreadn
+}
+
+// pattern is the body of a generated large field: n bytes that depend on the
+// seed and have no short period (a result assembled from misplaced pieces
+// differs from it).
+func pattern(n int64, seed uint8) []byte {
+	if n < 0 {
+		n = 0
+	}
+	if n > maxAlloc {
+		n = maxAlloc
+	}
+	// a window of one master sequence, placed by the seed (a copy: callers own the result)
+	off := int(seed) * 17
+	return append(make([]byte, 0, n), patternMaster[off:off+int(n)]...)
+}
+
+var patternMaster = func() []byte {
+	b := make([]byte, maxAlloc+256*17)
+	for i := range b {
+		b[i] = byte(i*7) + byte(i>>8)*13 + byte(i>>16)*101
+	}
+	return b
+}()
+
+// expandOp materialises the generated body of a large field.
+func expandOp(o Op) Op {
+	if o.GN > 0 && len(o.B) == 0 {
+		o.B = pattern(o.GN, o.GS)
+	}
+	return o
+}
+
+func expandOps(ops []Op) []Op {
+	big := false
+	for _, o := range ops {
+		big = big || (o.GN > 0 && len(o.B) == 0)
+	}
+	if !big {
+		return ops
+	}
+	out := make([]Op, len(ops))
+	for i, o := range ops {
+		out[i] = expandOp(o)
+	}
+	return out
+}
+
+// scribble overwrites a slice the harness passed to a write: the callee must
+// have copied what it needs (io.Writer: "Write must not retain p").
+func scribble(p []byte) {
+	for i := range p {
+		p[i] ^= 0xa5 // differs from the old value at every index
+	}
 }
 
 var fixedWidth = map[string]int{"bool": 1, "u8": 1, "u16": 2, "i16": 2, "u32": 4, "i32": 4, "u64": 8, "i64": 8, "f64": 8}
@@ -210,8 +272,10 @@ func smallCopyRead(o Op) bool {
 }
 
 // disturbBuffer performs trailing writes and reads that reuse whatever scratch
-// memory the buffer may have.
-func disturbBuffer(bx *bytex.BufferX) {
+// memory the buffer may have. tail > 0 adds that many bytes of further traffic
+// (one write, copying reads of varied sizes): memory an implementation recycles
+// only after tens of KiB comes round again.
+func disturbBuffer(bx *bytex.BufferX, tail int) {
 	bx.WriteU64(math.MaxUint64)
 	bx.WriteU32(0xa5a5a5a5)
 	bx.WriteU16(0x5a5a)
@@ -221,6 +285,42 @@ func disturbBuffer(bx *bytex.BufferX) {
 	_, _ = bx.ReadN(8)
 	_, _ = bx.ReadU16()
 	_, _ = bx.ReadN(3)
+	if tail = clampTail(tail); tail > 0 {
+		bx.Write(pattern(int64(tail), 0xa7))
+		readTraffic(bx.Len(), bx.ReadN)
+	}
+}
+
+// maxTail bounds the trailing traffic a case may ask for.
+const maxTail = 1 << 20
+
+func clampTail(tail int) int {
+	if tail < 0 {
+		return 0
+	}
+	if tail > maxTail {
+		return maxTail
+	}
+	return tail
+}
+
+// trafficSizes are the sizes of the copying reads of the trailing traffic, used
+// in turn: below, at and above the sizes an allocator would treat alike.
+var trafficSizes = []int{1, 3, 8, 64, 1000, 4096, 16384, 20000, 7, 255, 8192, 16383}
+
+// readTraffic takes total bytes through readN in varied sizes; results and
+// errors are dropped (only the retained values of the script are examined).
+func readTraffic(total int, readN func(int) ([]byte, error)) {
+	errs := 0
+	for i, got := 0, 0; got < total && errs < 4; i++ {
+		n := min(trafficSizes[i%len(trafficSizes)], total-got)
+		p, err := readN(n)
+		if err != nil {
+			errs++
+			continue
+		}
+		got += len(p)
+	}
 }
 
 func (v value) String() string {
@@ -342,7 +442,11 @@ func bufWrite(bx *bytex.BufferX, o Op) (known bool, err error) {
 	case "lstr":
 		err = bx.WriteLimitString(o.L, string(o.B))
 	case "bytes":
-		bx.Write(o.B)
+		// write-side ownership: the buffer gets a slice of its own that is overwritten
+		// right after the write; every later read is compared with o.B
+		p := append([]byte(nil), o.B...)
+		bx.Write(p)
+		scribble(p)
 	default:
 		return false, nil
 	}
@@ -352,9 +456,17 @@ func bufWrite(bx *bytex.BufferX, o Op) (known bool, err error) {
 // readLen is the byte count of the raw read an op asks for.
 func readLen(o Op) int64 {
 	if o.K == "bytes" {
-		return int64(len(o.B))
+		return bodyLen(o)
 	}
 	return o.N
+}
+
+// bodyLen is the length of the body of a string or raw op, spelled out or generated.
+func bodyLen(o Op) int64 {
+	if o.GN > 0 && len(o.B) == 0 {
+		return min(o.GN, maxAlloc)
+	}
+	return int64(len(o.B))
 }
 
 // bufRead issues the typed read on a BufferX.
@@ -599,8 +711,27 @@ func genVar(t *rapid.T, k string, label string) uint64 {
 	return uint64(rapid.SampledFrom(varBoundsI).Draw(t, label+"vi"))
 }
 
+// sweepLens are the lengths around the powers of two 2^5..2^12: where a size
+// class, a scratch array or a one-write fast path of an implementation ends.
+var sweepLens = func() []int {
+	var out []int
+	for k := 5; k <= 12; k++ {
+		out = append(out, 1<<k-1, 1<<k, 1<<k+1)
+	}
+	return out
+}()
+
+func patterned(t *rapid.T, n int, label string) []byte {
+	b := make([]byte, n)
+	seed := rapid.Byte().Draw(t, label+"sseed")
+	for i := range b {
+		b[i] = seed + byte(i*7) + byte(i>>8)*13
+	}
+	return b
+}
+
 func genStrBytes(t *rapid.T, label string) []byte {
-	switch rapid.IntRange(0, 11).Draw(t, label+"skind") {
+	switch rapid.IntRange(0, 14).Draw(t, label+"skind") {
 	case 0, 1, 2:
 		return []byte{} // the empty string (F8)
 	case 3:
@@ -619,6 +750,10 @@ func genStrBytes(t *rapid.T, label string) []byte {
 			b[i] = seed + byte(i*7)
 		}
 		return b
+	case 8, 9: // every length 0..300: no gap between the hand-picked ones
+		return patterned(t, rapid.IntRange(0, 300).Draw(t, label+"sweep"), label)
+	case 10: // 2^k-1, 2^k, 2^k+1 for k = 5..12
+		return patterned(t, rapid.SampledFrom(sweepLens).Draw(t, label+"pow2"), label)
 	default:
 		return rapid.SliceOfN(rapid.Byte(), 0, 24).Draw(t, label+"sbytes")
 	}
@@ -642,6 +777,55 @@ func genLimit(t *rapid.T, n int, label string) uint32 {
 	default:
 		return uint32(rapid.IntRange(0, 2*n+2).Draw(t, label+"r"))
 	}
+}
+
+// genBigLen: 64 KiB-1, 64 KiB, 64 KiB+1 (where a 16-bit size ends), a few
+// hundred KiB, and just under / at the 1 MiB allocation guard.
+func genBigLen(t *rapid.T) int64 {
+	switch k := rapid.IntRange(0, 19).Draw(t, "bigk"); {
+	case k < 12:
+		return int64(rapid.SampledFrom([]int{1<<16 - 1, 1 << 16, 1<<16 + 1}).Draw(t, "big64k"))
+	case k < 17:
+		return int64(rapid.IntRange(100<<10, 400<<10).Draw(t, "bigmid"))
+	default:
+		return int64(maxAlloc - rapid.IntRange(0, 16).Draw(t, "bigtop"))
+	}
+}
+
+// genBigOp draws an intact large string or raw field (limits admit it).
+func genBigOp(t *rapid.T) Op {
+	o := Op{K: rapid.SampledFrom([]string{"str", "str", "lstr", "bytes", "bytes"}).Draw(t, "bigkind")}
+	o.GN = genBigLen(t)
+	o.GS = rapid.Byte().Draw(t, "bigseed")
+	switch o.K {
+	case "lstr":
+		o.L = rapid.SampledFrom([]uint32{uint32(o.GN), uint32(o.GN) + 1, math.MaxUint32}).Draw(t, "bigwl")
+		o.RL = rapid.SampledFrom([]uint32{uint32(o.GN), uint32(o.GN) + 1, math.MaxUint32}).Draw(t, "bigrl")
+	case "bytes":
+		o.Via = rapid.SampledFrom([]string{"read", "readn", "readn", "zreadn"}).Draw(t, "bigvia")
+	}
+	return o
+}
+
+// bigOdds: one case in bigOdds carries a large field; tailOdds: one case in
+// tailOdds is followed by a few hundred KiB of trailing traffic.
+const (
+	bigOdds  = 250
+	tailOdds = 150
+)
+
+// oneIn is true for about one draw in n. (rapid's integer generators favour
+// small values and the ends of a range, so "IntRange(1, n) == 1" is far more
+// frequent than 1/n; a middle residue of a 32-bit draw is not favoured.)
+func oneIn(t *rapid.T, n uint32, label string) bool {
+	return rapid.Uint32().Draw(t, label)%n == n/2+1
+}
+
+func genTail(t *rapid.T) int {
+	if !oneIn(t, tailOdds, "tail") {
+		return 0
+	}
+	return rapid.IntRange(128<<10, 320<<10).Draw(t, "tailn")
 }
 
 var kindsAll = []string{"bool", "u8", "u16", "i16", "u32", "i32", "u64", "i64", "vu32", "vi32", "vu64", "vi64", "f64", "str", "str", "lstr", "lstr", "bytes", "bytes", "bytes"}
@@ -711,6 +895,9 @@ func classifyOps(res *vkit.Result, ops []Op) (strings int) {
 			if len(o.B) > 1024 {
 				res.Class("string>1KiB")
 			}
+			if len(o.B) >= 1<<16-1 {
+				res.Class("string>=64KiB-1")
+			}
 			if o.K == "lstr" {
 				switch {
 				case uint64(o.L) == uint64(len(o.B)):
@@ -735,6 +922,8 @@ func classifyOps(res *vkit.Result, ops []Op) (strings int) {
 			res.Class("varint")
 		case o.K == "bytes" && len(o.B) == 0:
 			res.Class("zero-length-raw")
+		case o.K == "bytes" && len(o.B) >= 1<<16-1:
+			res.Class("raw>=64KiB-1")
 		}
 	}
 	return strings
@@ -753,6 +942,9 @@ type CaseRT struct {
 	// reset buffer, which must behave like a fresh one
 	Pre      []Op `json:"pre,omitempty"`
 	PreReads int  `json:"pre_reads,omitempty"`
+	// Tail: bytes of further traffic (a write, copying reads of varied sizes) between the script and the re-examination
+	// of the values it retained
+	Tail int `json:"tail,omitempty"`
 }
 
 func GenRT(t *rapid.T) CaseRT {
@@ -770,12 +962,17 @@ func GenRT(t *rapid.T) CaseRT {
 		}
 		c.PreReads = rapid.IntRange(0, len(c.Pre)).Draw(t, "prereads")
 	}
+	if oneIn(t, bigOdds, "big") {
+		c.Ops[rapid.IntRange(0, n-1).Draw(t, "bigpos")] = genBigOp(t)
+	}
+	c.Tail = genTail(t)
 	return c
 }
 
 func ExecRT(c CaseRT) *vkit.Result {
 	res := &vkit.Result{}
 	bx := newBuffer(c.Ctor, c.Size)
+	c.Ops, c.Pre = expandOps(c.Ops), expandOps(c.Pre)
 	if len(c.Pre) > 0 {
 		var pre []Op
 		for _, o := range c.Pre {
@@ -867,12 +1064,15 @@ func ExecRT(c CaseRT) *vkit.Result {
 	}
 	// whatever a copying read handed out belongs to the caller: it must still hold
 	// the written value after all later reads and after trailing writes
-	disturbBuffer(bx)
+	disturbBuffer(bx, c.Tail)
 	if !held.check(res, "roundtrip") {
 		return res
 	}
 	if len(held.items) > 0 {
 		res.Class("retained-values-rechecked")
+		if clampTail(c.Tail) >= 128<<10 {
+			res.Class("retained-values-rechecked-after>=128KiB-traffic")
+		}
 	}
 	nstr := classifyOps(res, written)
 	res.NonTrivial = len(written) >= 3 && nstr >= 1
@@ -1040,7 +1240,9 @@ func ExecRW(c CaseRW) *vkit.Result {
 			}
 			m = append([]byte{}, m...)
 			copy(m[s.Pos:], s.B)
-			bx.ReWrite(s.Pos, s.B)
+			p := append([]byte(nil), s.B...)
+			bx.ReWrite(s.Pos, p)
+			scribble(p) // the buffer must hold its own copy of the rewritten bytes
 			if !sync("rewrite/ReWrite", fmt.Sprintf("step %d: ReWrite(pos=%d, %d bytes)", i, s.Pos, len(s.B))) {
 				return res
 			}
@@ -1090,7 +1292,7 @@ func ExecRW(c CaseRW) *vkit.Result {
 		return res.Failf("rewrite/final", "draining %d bytes: err=%v, Len now %d, first difference at %d", len(m), err, bx.Len(), firstDiff(rest, m))
 	}
 	// bytes taken out by the copying read are the caller's: later rewrites, writes and reads must not reach them
-	disturbBuffer(bx)
+	disturbBuffer(bx, 0)
 	if !held.check(res, "rewrite") {
 		return res
 	}
@@ -1229,7 +1431,7 @@ func ExecTrunc(c CaseTrunc) *vkit.Result {
 		}
 		res.Class("nothing-cut")
 	}
-	disturbBuffer(r)
+	disturbBuffer(r, 0)
 	if !held.check(res, "truncated") {
 		return res
 	}
@@ -1254,8 +1456,38 @@ func classOfKind(k string) string {
 // part 3b: arbitrary bytes, arbitrary read script, against the model decoder
 
 type CaseArb struct {
-	Data  []byte `json:"data"`
-	Reads []Op   `json:"reads"`
+	Data  []byte  `json:"data"`
+	Reads []Op    `json:"reads"`
+	Big   *BigSeg `json:"big,omitempty"`
+}
+
+// BigSeg stands for a large body inside the payload without spelling it out:
+// the input is Data with the N bytes of pattern(N, Seed) inserted at offset At
+// (clamped to len(Data)).
+type BigSeg struct {
+	At   int   `json:"at"`
+	N    int64 `json:"n"`
+	Seed uint8 `json:"seed,omitempty"`
+}
+
+func (b *BigSeg) size() int {
+	if b == nil || b.N <= 0 {
+		return 0
+	}
+	return int(min(b.N, maxAlloc))
+}
+
+// splice returns a private copy of data with the large body inserted.
+func splice(data []byte, b *BigSeg) []byte {
+	n := b.size()
+	if n == 0 {
+		return append([]byte{}, data...)
+	}
+	at := min(max(b.At, 0), len(data))
+	out := make([]byte, 0, len(data)+n)
+	out = append(out, data[:at]...)
+	out = append(out, pattern(int64(n), b.Seed)...)
+	return append(out, data[at:]...)
 }
 
 var hostile = [][]byte{
@@ -1302,7 +1534,7 @@ func genReadOp(t *rapid.T, kinds []string, remaining int) Op {
 // readOf turns a written op into the read that matches it.
 func readOf(o Op) Op {
 	if o.K == "bytes" {
-		return Op{K: map[string]string{"read": "read", "readn": "readn", "zreadn": "zreadn", "": "zreadn"}[o.Via], N: int64(len(o.B))}
+		return Op{K: map[string]string{"read": "read", "readn": "readn", "zreadn": "zreadn", "": "zreadn"}[o.Via], N: bodyLen(o)}
 	}
 	r := Op{K: o.K}
 	if o.K == "lstr" {
@@ -1311,24 +1543,42 @@ func readOf(o Op) Op {
 	return r
 }
 
-// genPayload draws (payload, matching read script) from a write script.
-func genPayload(t *rapid.T, kinds []string, maxOps int) ([]byte, []Op, []int) {
+// genPayload draws (payload, matching read script) from a write script. One
+// payload in bigOdds holds an intact large string or raw field; its body is
+// returned as a BigSeg, data holds everything else (fieldStarts are offsets in
+// the spliced payload).
+func genPayload(t *rapid.T, kinds []string, maxOps int) ([]byte, []Op, []int, *BigSeg) {
 	var data []byte
 	var reads []Op
 	var fieldStarts []int // offsets of fixed-width fields wider than one byte (incl. string prefixes)
+	var big *BigSeg
 	n := rapid.IntRange(0, maxOps).Draw(t, "nops")
+	bigAt := -1
+	if n > 0 && oneIn(t, bigOdds, "big") {
+		bigAt = rapid.IntRange(0, n-1).Draw(t, "bigpos")
+	}
 	for i := 0; i < n; i++ {
+		if i == bigAt {
+			o := genBigOp(t)
+			if isStr(o.K) {
+				fieldStarts = append(fieldStarts, len(data))
+				data = binary.LittleEndian.AppendUint32(data, uint32(o.GN))
+			}
+			big = &BigSeg{At: len(data), N: o.GN, Seed: o.GS}
+			reads = append(reads, readOf(o))
+			continue
+		}
 		o := genWriteOp(t, kinds, false)
 		if o.K == "lstr" && uint64(len(o.B)) > uint64(o.L) {
 			o.L = uint32(len(o.B))
 		}
 		if fixedWidth[o.K] > 1 || isStr(o.K) {
-			fieldStarts = append(fieldStarts, len(data))
+			fieldStarts = append(fieldStarts, len(data)+big.size())
 		}
 		data = modelEncode(data, o)
 		reads = append(reads, readOf(o))
 	}
-	return data, reads, fieldStarts
+	return data, reads, fieldStarts, big
 }
 
 func mutateBytes(t *rapid.T, data []byte) []byte {
@@ -1362,8 +1612,8 @@ func mutateBytes(t *rapid.T, data []byte) []byte {
 	return data
 }
 
-func genDataAndReads(t *rapid.T, kinds []string) ([]byte, []Op, []int, string) {
-	data, reads, fields := genPayload(t, kinds, 10)
+func genDataAndReads(t *rapid.T, kinds []string) ([]byte, []Op, []int, *BigSeg, string) {
+	data, reads, fields, big := genPayload(t, kinds, 10)
 	shape := "valid"
 	switch rapid.IntRange(0, 9).Draw(t, "shape") {
 	case 0, 1, 2, 3: // valid encoding, matching script
@@ -1381,16 +1631,18 @@ func genDataAndReads(t *rapid.T, kinds []string) ([]byte, []Op, []int, string) {
 		data = append(data, rapid.SliceOfN(rapid.Byte(), 0, 8).Draw(t, "tail")...)
 		reads = nil
 		fields = nil
+		big = nil
 		shape = "hostile"
 	default: // random bytes
 		data = rapid.SliceOfN(rapid.Byte(), 0, 40).Draw(t, "random")
 		reads = nil
 		fields = nil
+		big = nil
 		shape = "random"
 	}
 	if reads == nil {
 		for i, k := 0, rapid.IntRange(1, 10).Draw(t, "nreads"); i < k; i++ {
-			reads = append(reads, genReadOp(t, kinds, len(data)))
+			reads = append(reads, genReadOp(t, kinds, len(data)+big.size()))
 		}
 	} else {
 		// sprinkle reads that take nothing, and ask for more than there is at the end
@@ -1403,12 +1655,12 @@ func genDataAndReads(t *rapid.T, kinds []string) ([]byte, []Op, []int, string) {
 			reads = append(reads, genReadOp(t, kinds, 0))
 		}
 	}
-	return data, reads, fields, shape
+	return data, reads, fields, big, shape
 }
 
 func GenArb(t *rapid.T) CaseArb {
-	data, reads, _, _ := genDataAndReads(t, kindsAll)
-	return CaseArb{Data: data, Reads: reads}
+	data, reads, _, big, _ := genDataAndReads(t, kindsAll)
+	return CaseArb{Data: data, Reads: reads, Big: big}
 }
 
 // expectation of the model decoder for one read at rem (the unread bytes)
@@ -1496,7 +1748,10 @@ func modelRead(rem []byte, o Op) (exp int, want value, n int) {
 
 func ExecArb(c CaseArb) *vkit.Result {
 	res := &vkit.Result{}
-	data := append([]byte{}, c.Data...)
+	data := splice(c.Data, c.Big)
+	if c.Big.size() >= 1<<16-1 {
+		res.Class("payload-with-field>=64KiB-1")
+	}
 	bx := bytex.NewReadableBufferX(append([]byte{}, data...))
 	off := 0
 	executed, strReads := 0, 0
@@ -1557,7 +1812,7 @@ func ExecArb(c CaseArb) *vkit.Result {
 		}
 		res.Class("script-completed")
 	}
-	disturbBuffer(bx)
+	disturbBuffer(bx, 0)
 	if !held.check(res, "arbitrary") {
 		return res
 	}
@@ -1574,15 +1829,82 @@ func ExecArb(c CaseArb) *vkit.Result {
 // offsets); size 0 is a Read that returns (0, nil). An empty or all-zero plan
 // delivers everything at once. EOFWithLast makes the read that delivers the
 // last byte return io.EOF together with the data, as io.Reader permits.
+//
+// ZeroRun > 0: when the stream stands at offset ZeroAt the source answers
+// ZeroRun consecutive Reads with (0, nil) - once, not per plan cycle - before it
+// goes on (io.Reader allows it; the data still arrives).
+//
+// Src selects the io.Reader handed to NewReaderX: "" the harness's chunkReader,
+// "bytes.Buffer", "bytes.Reader", "strings.Reader" (standard-library sources
+// over the same bytes; Plan, ZeroRun and EOFWithLast do not apply), "bufio16"
+// (bufio.NewReaderSize(chunkReader, 16)), "onebyte" (iotest.OneByteReader over
+// the chunkReader), "dataerr" (iotest.DataErrReader over the chunkReader, which then never
+// combines data with io.EOF itself: DataErrReader would lose such bytes).
 type Chunking struct {
-	Plan        []int `json:"plan"`
-	EOFWithLast bool  `json:"eof_with_last,omitempty"`
+	Plan        []int  `json:"plan"`
+	EOFWithLast bool   `json:"eof_with_last,omitempty"`
+	ZeroAt      int    `json:"zero_at,omitempty"`
+	ZeroRun     int    `json:"zero_run,omitempty"`
+	Src         string `json:"src,omitempty"`
 }
 
 type CaseDiff struct {
 	Data  []byte   `json:"data"`
 	Reads []Op     `json:"reads"`
 	Chunk Chunking `json:"chunk"`
+	Big   *BigSeg  `json:"big,omitempty"` // a large body inside Data, see BigSeg
+	// Tail: bytes of further traffic on both readers (more stream data read by ReadN in varied sizes, a write and
+	// copying reads on the buffer) before the retained values are re-examined; 0 = a few dozen bytes
+	Tail int `json:"tail,omitempty"`
+}
+
+var srcNames = []string{"", "bytes.Buffer", "bytes.Reader", "strings.Reader", "bufio16", "onebyte", "dataerr"}
+
+// chunkBased: the source is the chunkReader or a wrapper around it.
+func chunkBased(src string) bool {
+	return src == "" || src == "bufio16" || src == "onebyte" || src == "dataerr"
+}
+
+// newSource builds the io.Reader of a differential case. extend appends more
+// stream data after the script (allAtOnce: delivered unfragmented).
+func newSource(data []byte, ch Chunking) (rd io.Reader, cr *chunkReader, extend func(tail []byte, allAtOnce bool), known bool) {
+	known = true
+	switch ch.Src {
+	case "bytes.Buffer":
+		b := bytes.NewBuffer(data)
+		return b, nil, func(tail []byte, _ bool) { _, _ = b.Write(tail) }, true
+	case "bytes.Reader":
+		r := bytes.NewReader(data)
+		return r, nil, func(tail []byte, _ bool) { r.Reset(tail) }, true
+	case "strings.Reader":
+		r := strings.NewReader(string(data))
+		return r, nil, func(tail []byte, _ bool) { r.Reset(string(tail)) }, true
+	}
+	if ch.Src == "dataerr" {
+		// iotest.DataErrReader drops the bytes its source returns together with an error (it breaks out of its loop
+		// before copying them): under it the chunkReader reports io.EOF separately
+		ch.EOFWithLast = false
+	}
+	cr = newChunkReader(data, ch)
+	extend = func(tail []byte, allAtOnce bool) {
+		cr.data = append(cr.data, tail...)
+		if allAtOnce {
+			cr.plan, cr.pi, cr.left = []int{math.MaxInt32}, 0, 0
+		}
+	}
+	switch ch.Src {
+	case "":
+		rd = cr
+	case "bufio16":
+		rd = bufio.NewReaderSize(cr, 16)
+	case "onebyte":
+		rd = iotest.OneByteReader(cr)
+	case "dataerr":
+		rd = iotest.DataErrReader(cr)
+	default:
+		rd, known = cr, false
+	}
+	return rd, cr, extend, known
 }
 
 type chunkReader struct {
@@ -1594,10 +1916,14 @@ type chunkReader struct {
 	inited bool
 	eofTog bool
 	calls  int
+	// a single run of zeroRun (0, nil) answers at stream offset zeroAt
+	zeroAt, zeroRun int
+	zeroSeen        int // how many of them a Read with len(p) > 0 received
+	streak          int // consecutive zero-length answers out of the plan
 }
 
 func newChunkReader(data []byte, ch Chunking) *chunkReader {
-	r := &chunkReader{data: data, eofTog: ch.EOFWithLast}
+	r := &chunkReader{data: data, eofTog: ch.EOFWithLast, zeroAt: ch.ZeroAt, zeroRun: max(ch.ZeroRun, 0)}
 	sum := 0
 	for _, k := range ch.Plan {
 		if k > 0 {
@@ -1626,6 +1952,11 @@ func (r *chunkReader) Read(p []byte) (int, error) {
 	if len(p) == 0 {
 		return 0, nil
 	}
+	if r.zeroRun > 0 && r.off == r.zeroAt {
+		r.zeroRun--
+		r.zeroSeen++
+		return 0, nil
+	}
 	if r.off >= len(r.data) {
 		return 0, io.EOF
 	}
@@ -1633,13 +1964,14 @@ func (r *chunkReader) Read(p []byte) (int, error) {
 		k := r.plan[r.pi%len(r.plan)]
 		r.pi++
 		if k == 0 {
-			if r.pi > 1<<20 {
+			if r.streak++; r.streak > 1<<20 {
 				panic("chunkReader: runaway zero-length reads")
 			}
 			return 0, nil
 		}
 		r.left = k
 	}
+	r.streak = 0
 	n := min(r.left, len(p), len(r.data)-r.off)
 	copy(p, r.data[r.off:r.off+n])
 	r.off += n
@@ -1650,9 +1982,10 @@ func (r *chunkReader) Read(p []byte) (int, error) {
 	return n, nil
 }
 
-// boundaries returns the absolute chunk boundaries inside (0, total).
-func (ch Chunking) boundaries(total int) map[int]bool {
-	out := map[int]bool{}
+// boundaries returns the predicate "b is an absolute chunk boundary inside
+// (0, total)": the plan is cyclic, so b is one iff b modulo the plan's sum is a
+// partial sum of the plan.
+func (ch Chunking) boundaries(total int) func(b int) bool {
 	sum := 0
 	for _, k := range ch.Plan {
 		if k > 0 {
@@ -1660,19 +1993,17 @@ func (ch Chunking) boundaries(total int) map[int]bool {
 		}
 	}
 	if sum == 0 {
-		return out
+		return func(int) bool { return false }
 	}
-	for pos, i := 0, 0; pos < total; i++ {
-		k := ch.Plan[i%len(ch.Plan)]
-		if k <= 0 {
-			continue
-		}
-		pos += k
-		if pos < total {
-			out[pos] = true
+	partial := map[int]bool{}
+	pos := 0
+	for _, k := range ch.Plan {
+		if k > 0 {
+			pos += k
+			partial[pos%sum] = true
 		}
 	}
-	return out
+	return func(b int) bool { return b > 0 && b < total && partial[b%sum] }
 }
 
 func genChunking(t *rapid.T, total int, fields []int) (Chunking, string) {
@@ -1717,6 +2048,18 @@ func genChunking(t *rapid.T, total int, fields []int) (Chunking, string) {
 		}
 	}
 	ch.EOFWithLast = rapid.IntRange(0, 5).Draw(t, "eofwithlast") == 5
+	if oneIn(t, 20, "zerorun") {
+		// a long run of reads that deliver nothing before the data goes on: longer than the 100 empty reads after
+		// which bufio gives up
+		ch.ZeroRun = rapid.IntRange(150, 300).Draw(t, "zerorunlen")
+		ch.ZeroAt = rapid.IntRange(0, total).Draw(t, "zeroat")
+		if rapid.Bool().Draw(t, "zeroat0") {
+			ch.ZeroAt = 0
+		}
+	}
+	if k := rapid.IntRange(0, 11).Draw(t, "src"); k >= 6 {
+		ch.Src = srcNames[k-5]
+	}
 	return ch, mode
 }
 
@@ -1729,9 +2072,17 @@ func sortInts(a []int) {
 }
 
 func GenDiff(t *rapid.T) CaseDiff {
-	data, reads, fields, _ := genDataAndReads(t, kindsCommon)
-	ch, _ := genChunking(t, len(data), fields)
-	return CaseDiff{Data: data, Reads: reads, Chunk: ch}
+	data, reads, fields, big, _ := genDataAndReads(t, kindsCommon)
+	ch, _ := genChunking(t, len(data)+big.size(), fields)
+	if big.size() > 0 && rapid.Bool().Draw(t, "bigchunks") {
+		// large payload: fragments of a size that matters for it, half of the time
+		ch.Plan = []int{rapid.SampledFrom([]int{4095, 4096, 1<<16 - 1, 1 << 16, 100000}).Draw(t, "bigchunk")}
+	}
+	c := CaseDiff{Data: data, Reads: reads, Chunk: ch, Big: big}
+	if c.Tail = genTail(t); ch.Src == "onebyte" {
+		c.Tail = 0 // a few hundred KiB one byte per Read: too slow for what it adds
+	}
+	return c
 }
 
 func chunkClass(ch Chunking, total int) string {
@@ -1769,20 +2120,36 @@ func ExecDiff(c CaseDiff) *vkit.Result {
 		res.Skip("case-too-large")
 		return res
 	}
-	data := append([]byte{}, c.Data...)
+	if c.Chunk.ZeroRun > 1<<16 {
+		res.Skip("case-too-large")
+		return res
+	}
+	data := splice(c.Data, c.Big)
+	if c.Big.size() >= 1<<16-1 {
+		res.Class("payload-with-field>=64KiB-1")
+	}
 	bx := bytex.NewReadableBufferX(append([]byte{}, data...))
-	src := newChunkReader(append([]byte{}, data...), c.Chunk)
+	src, cr, extend, knownSrc := newSource(append([]byte{}, data...), c.Chunk)
+	if !knownSrc {
+		res.Skip("unknown-source")
+	}
 	rx := bytex.NewReaderX(src)
-	bounds := c.Chunk.boundaries(len(data))
-	res.Class(chunkClass(c.Chunk, len(data)))
-	for _, k := range c.Chunk.Plan {
-		if k <= 0 {
-			res.Class("zero-length-reads")
-			break
+	bounds := func(int) bool { return false }
+	if cr != nil {
+		bounds = c.Chunk.boundaries(len(data))
+		res.Class(chunkClass(c.Chunk, len(data)))
+		for _, k := range c.Chunk.Plan {
+			if k <= 0 {
+				res.Class("zero-length-reads")
+				break
+			}
+		}
+		if c.Chunk.EOFWithLast && c.Chunk.Src != "dataerr" {
+			res.Class("eof-with-last-bytes")
 		}
 	}
-	if c.Chunk.EOFWithLast {
-		res.Class("eof-with-last-bytes")
+	if c.Chunk.Src != "" && knownSrc {
+		res.Class("source-" + c.Chunk.Src)
 	}
 	executed, strReads, splitFixed := 0, 0, false
 	var held keeper
@@ -1791,13 +2158,25 @@ func ExecDiff(c CaseDiff) *vkit.Result {
 	// script and after further traffic (trailing writes on the buffer, more
 	// stream data for the reader)
 	finish := func() *vkit.Result {
-		disturbBuffer(bx)
-		src.data = append(src.data, bytes.Repeat([]byte{0xee}, 24)...)
-		_, _ = rx.ReadN(8)
-		_, _ = rx.ReadU64()
-		_, _ = rx.ReadN(3)
+		if cr != nil && cr.zeroSeen >= 150 {
+			res.Class("zero-length-reads-run>=150")
+		}
+		tail := clampTail(c.Tail)
+		disturbBuffer(bx, tail)
+		if tail == 0 {
+			extend(bytes.Repeat([]byte{0xee}, 24), false)
+			_, _ = rx.ReadN(8)
+			_, _ = rx.ReadU64()
+			_, _ = rx.ReadN(3)
+		} else {
+			extend(pattern(int64(tail), 0x5b), true)
+			readTraffic(tail, rx.ReadN)
+		}
 		if held.check(res, "diff") && len(held.items) > 0 {
 			res.Class("retained-values-rechecked")
+			if tail >= 128<<10 {
+				res.Class("retained-values-rechecked-after>=128KiB-traffic")
+			}
 		}
 		return res
 	}
@@ -1839,7 +2218,7 @@ func ExecDiff(c CaseDiff) *vkit.Result {
 			strReads++
 		}
 		if (eb != nil) != (er != nil) {
-			return res.Failf("diff/"+api, "read %d: %s at offset %d of %d bytes (%x…), source plan %v: BufferX returned (%s, err=%v) but ReaderX returned (%s, err=%v)", i, describe(o), off, len(data), clip(rem), c.Chunk.Plan, vb, eb, vr, er)
+			return res.Failf("diff/"+api, "read %d: %s at offset %d of %d bytes (%x…), source %s: BufferX returned (%s, err=%v) but ReaderX returned (%s, err=%v)", i, describe(o), off, len(data), clip(rem), c.Chunk.describe(), vb, eb, vr, er)
 		}
 		if eb != nil {
 			res.Class("first-error-agrees")
@@ -1849,7 +2228,7 @@ func ExecDiff(c CaseDiff) *vkit.Result {
 			break // what either reader holds after a failed read is not specified
 		}
 		if !sameValue(vb, vr) {
-			return res.Failf("diff/"+api, "read %d: %s at offset %d, source plan %v: BufferX decoded %s, ReaderX decoded %s", i, describe(o), off, c.Chunk.Plan, vb, vr)
+			return res.Failf("diff/"+api, "read %d: %s at offset %d, source %s: BufferX decoded %s, ReaderX decoded %s", i, describe(o), off, c.Chunk.describe(), vb, vr)
 		}
 		if smallRawSeen && usesScratch(o) {
 			res.Class("raw<=8-then-fixed-width")
@@ -1865,7 +2244,7 @@ func ExecDiff(c CaseDiff) *vkit.Result {
 			}
 		}
 		for b := off + 1; b < off+fw && b < end+1; b++ {
-			if bounds[b] {
+			if bounds(b) {
 				splitFixed = true
 				res.Class("split-inside-fixed-width")
 			}
@@ -1877,8 +2256,25 @@ func ExecDiff(c CaseDiff) *vkit.Result {
 			res.Class("script-completed")
 		}
 	}
-	res.NonTrivial = executed >= 3 && strReads >= 1 && splitFixed
+	res.NonTrivial = executed >= 3 && strReads >= 1 && (splitFixed || cr == nil)
 	return finish()
+}
+
+func (ch Chunking) describe() string {
+	if !chunkBased(ch.Src) {
+		return ch.Src
+	}
+	s := fmt.Sprintf("plan %v", ch.Plan)
+	if ch.Src != "" {
+		s = ch.Src + " over " + s
+	}
+	if ch.ZeroRun > 0 {
+		s += fmt.Sprintf(", %d reads of (0, nil) at stream offset %d", ch.ZeroRun, ch.ZeroAt)
+	}
+	if ch.EOFWithLast && ch.Src != "dataerr" {
+		s += ", io.EOF with the last bytes"
+	}
+	return s
 }
 
 func describe(o Op) string {
@@ -1949,11 +2345,18 @@ func DecodeScript(b []byte) []Op {
 	return ops
 }
 
-// DecodeChunking: first byte = flags (bit0 eof-with-last), then one chunk size per byte.
+// DecodeChunking: first byte = flags (bit0 eof-with-last, bits 1-3 the kind of source, bit 4 a long run of
+// zero-length reads whose length and offset follow), then one chunk size per byte.
 func DecodeChunking(b []byte) Chunking {
 	p := &provider{b: b}
 	var ch Chunking
-	ch.EOFWithLast = p.byte()&1 == 1
+	flags := p.byte()
+	ch.EOFWithLast = flags&1 == 1
+	ch.Src = srcNames[int(flags>>1&7)%len(srcNames)]
+	if flags&16 != 0 {
+		ch.ZeroRun = 101 + int(p.byte())
+		ch.ZeroAt = int(p.byte())
+	}
 	for p.more() && len(ch.Plan) < 64 {
 		ch.Plan = append(ch.Plan, int(p.byte()%16))
 	}
@@ -1964,14 +2367,14 @@ func DecodeChunking(b []byte) Chunking {
 
 var PartRT = &vkit.Part[CaseRT]{
 	Property: Property, Name: "roundtrip",
-	Rule:  "rapid: a script of 1-14 typed writes (bool,u8,u16/i16,u32/i32,u64/i64,varU32/I32/U64/I64,f64 from raw bits incl. NaN payloads/+-Inf/-0, string incl. \"\" / non-UTF-8 / >1 KiB, limit-string with write and read limit </=/> len, raw bytes read back by Read/ReadN/ZReadN) with boundary values on NewBufferX/NewSizedBufferX/NewReadableBufferX(nil); the same reads must return the written values bit for bit, then Len()==0 and a further read fails; WriteLimitString errs exactly when len>limit and then writes nothing; raw fields are 1..8 bytes read by ReadN two times out of three, and every slice/string handed out by a copying read (ReadN, the p of Read(p), ReadString/ReadLimitString; not ZReadN, which is documented as no-copy) is kept and compared again at the end of the script, after all later reads and after trailing writes and reads on the same buffer. Non-trivial: >= 3 accepted writes with >= 1 string; distinct = distinct case JSON",
+	Rule:  "rapid: a script of 1-14 typed writes (bool,u8,u16/i16,u32/i32,u64/i64,varU32/I32/U64/I64,f64 from raw bits incl. NaN payloads/+-Inf/-0, string incl. \"\" / non-UTF-8 / >1 KiB, limit-string with write and read limit </=/> len, raw bytes read back by Read/ReadN/ZReadN) with boundary values on NewBufferX/NewSizedBufferX/NewReadableBufferX(nil); the same reads must return the written values bit for bit, then Len()==0 and a further read fails; WriteLimitString errs exactly when len>limit and then writes nothing; raw fields are 1..8 bytes read by ReadN two times out of three, and every slice/string handed out by a copying read (ReadN, the p of Read(p), ReadString/ReadLimitString; not ZReadN, which is documented as no-copy) is kept and compared again at the end of the script, after all later reads and after trailing writes and reads on the same buffer (one case in ~150: 128-320 KiB of further traffic, a write and copying reads of varied sizes, comes first). String and raw lengths also sweep 0..300 and 2^k-1, 2^k, 2^k+1 for k = 5..12; one case in ~250 holds an intact string / limit-string / raw field of 64 KiB-1, 64 KiB, 64 KiB+1, 100-400 KiB or 1 MiB-16..1 MiB (kept in the case as length + seed of a generated body). Every []byte passed to Write is a private slice that is overwritten right after the call; the reads are compared with the original (the buffer must have copied it). Non-trivial: >= 3 accepted writes with >= 1 string; distinct = distinct case JSON",
 	Quick: 60000, Thorough: 150000,
 	Gen: GenRT, Exec: ExecRT,
 }
 
 var PartRW = &vkit.Part[CaseRW]{
 	Property: Property, Name: "rewrite",
-	Rule:  "rapid: 2-12 steps of typed write / consume k bytes / ReWrite(pos,bytes) / ReWriteU32(pos,v) with pos and length inside the unread region (0, end, random; whole region; empty), folded over the model length; after every rewrite Bytes() must equal a byte-slice model in which exactly [pos,pos+len) changed (ReWriteU32: the four bytes read back as v), writes must not disturb earlier bytes, and draining returns the model; bytes consumed by the copying ReadN are kept and must be unchanged at the end. Non-trivial: >= 3 steps, >= 1 rewrite that alters a byte and >= 1 rewrite smaller than the region; distinct = distinct case JSON",
+	Rule:  "rapid: 2-12 steps of typed write / consume k bytes / ReWrite(pos,bytes) / ReWriteU32(pos,v) with pos and length inside the unread region (0, end, random; whole region; empty), folded over the model length; after every rewrite Bytes() must equal a byte-slice model in which exactly [pos,pos+len) changed (ReWriteU32: the four bytes read back as v), writes must not disturb earlier bytes, and draining returns the model; bytes consumed by the copying ReadN are kept and must be unchanged at the end; the slices passed to Write and ReWrite are overwritten right after the call. Non-trivial: >= 3 steps, >= 1 rewrite that alters a byte and >= 1 rewrite smaller than the region; distinct = distinct case JSON",
 	Quick: 45000, Thorough: 100000,
 	Gen: GenRW, Exec: ExecRW,
 }
@@ -1985,14 +2388,14 @@ var PartTrunc = &vkit.Part[CaseTrunc]{
 
 var PartArb = &vkit.Part[CaseArb]{
 	Property: Property, Name: "arbitrary",
-	Rule:  "rapid: bytes = valid encoding / damaged encoding (truncate, hostile length prefixes and varints, insert, delete, bit flip, garbage tail) / hostile constants / random, read script = the matching one (plus zero-length reads and one read beyond the end) or arbitrary typed reads and Read/ReadN/ZReadN with n in {-1,0,1,rest,rest+1,..}; BufferX against a harness-side decoder of the documented format: unsatisfiable read => error and no value, satisfiable => the denoted value, stop at the first failing read, Len() at the end, no panic. Not asserted: 64-bit varint overflow, oversize varints through 32-bit readers, ReadBool of bytes > 1, ReadN(0). Non-trivial: >= 3 reads executed incl. >= 1 string read; distinct = distinct case JSON",
+	Rule:  "rapid: bytes = valid encoding / damaged encoding (truncate, hostile length prefixes and varints, insert, delete, bit flip, garbage tail) / hostile constants / random, read script = the matching one (plus zero-length reads and one read beyond the end) or arbitrary typed reads and Read/ReadN/ZReadN with n in {-1,0,1,rest,rest+1,..}; BufferX against a harness-side decoder of the documented format: unsatisfiable read => error and no value, satisfiable => the denoted value, stop at the first failing read, Len() at the end, no panic. One payload in ~250 holds an intact string or raw field of 64 KiB-1 .. 1 MiB (kept as offset + length + seed of a generated body). Not asserted: 64-bit varint overflow, oversize varints through 32-bit readers, ReadBool of bytes > 1, ReadN(0). Non-trivial: >= 3 reads executed incl. >= 1 string read; distinct = distinct case JSON",
 	Quick: 60000, Thorough: 150000,
 	Gen: GenArb, Exec: ExecArb,
 }
 
 var PartDiff = &vkit.Part[CaseDiff]{
 	Property: Property, Name: "differential",
-	Rule:  "rapid: payload and read script as in part arbitrary but restricted to what both readers expose (typed reads, strings, Read(p), ReadN/ZReadN with n in {-1,0,1,..}); the source io.Reader fragments the payload by a chunk plan (1 byte at a time, fixed k, random splits, boundaries aimed inside fixed-width fields, all at once; zero-length reads interleaved; optionally io.EOF delivered with the last bytes); ReaderX over that source must yield the same sequence of (value | error-ness) as BufferX over the same bytes, compared up to and including the first failing read; the slices and strings both readers handed out by copying reads are kept and must be unchanged after the script and after further traffic (trailing writes on the buffer, more stream data for the reader). Guards: unlimited ReadString / admitted ReadLimitString only when the length prefix <= 1 MiB, raw reads <= 1 MiB (skips counted). Non-trivial: >= 3 reads executed incl. >= 1 string and a chunk boundary strictly inside a fixed-width field (or string length prefix) that was read; distinct = distinct case JSON",
+	Rule:  "rapid: payload and read script as in part arbitrary but restricted to what both readers expose (typed reads, strings, Read(p), ReadN/ZReadN with n in {-1,0,1,..}); the source io.Reader fragments the payload by a chunk plan (1 byte at a time, fixed k, random splits, boundaries aimed inside fixed-width fields, all at once; zero-length reads interleaved; one case in ~20 a single run of 150-300 consecutive (0, nil) reads at one stream offset; optionally io.EOF delivered with the last bytes), and about two cases in five hand NewReaderX another kind of io.Reader over the same bytes: *bytes.Buffer, *bytes.Reader, *strings.Reader, bufio.NewReaderSize(chunk source, 16), iotest.OneByteReader and iotest.DataErrReader over the chunk source; one payload in ~250 holds an intact string or raw field of 64 KiB-1 .. 1 MiB (then fragments of 4095 .. 100000 bytes half of the time); ReaderX over that source must yield the same sequence of (value | error-ness) as BufferX over the same bytes, compared up to and including the first failing read; the slices and strings both readers handed out by copying reads are kept and must be unchanged after the script and after further traffic (trailing writes on the buffer, more stream data for the reader; one case in ~150: 128-320 KiB of it on both, read by ReadN in sizes 1 .. 20000). Guards: unlimited ReadString / admitted ReadLimitString only when the length prefix <= 1 MiB, raw reads <= 1 MiB (skips counted). Non-trivial: >= 3 reads executed incl. >= 1 string and a chunk boundary strictly inside a fixed-width field (or string length prefix) that was read, or a standard-library source; distinct = distinct case JSON",
 	Quick: 120000, Thorough: 300000,
 	Gen: GenDiff, Exec: ExecDiff,
 }
